@@ -168,6 +168,8 @@ class _Norm(ast.NodeTransformer):
             return ast.Compare(left=c.left, ops=[_NEG[type(c.ops[0])]()], comparators=c.comparators)
         if _is_const(n.operand):
             return _try_eval(n)
+        if isinstance(n.op, ast.Not) and _truth(n.operand) is not None:
+            return ast.Constant(value=not _truth(n.operand))
         return n
 
     def visit_BinOp(self, n):
